@@ -796,8 +796,8 @@ def gen_c38_case(rng, idx, thorough=False):
         else:
             node = rng.choice(names)
         serv = rng.choice(SERVS)[0]
-        if rng.random() < 0.5:
-            serv = rng.choice([None, b"80", b"443", b"8080", b"http"])
+        if rng.random() < 0.75:
+            serv = rng.choice([None, None, b"80", b"443", b"8080", b"http", b"domain", b"65535", b"0"])
         h = gen_hints(rng)
         if node is not None and not re.match(rb"[0-9:.a-fA-F]+\Z", node):
             last_node = node
